@@ -53,7 +53,7 @@ Section ReplayProofs.
     model_verdict INIT GROWTH log = None -> spec_verdict INIT GROWTH log = None.
   Proof.
     intros [|r0 log]; [reflexivity|]. unfold model_verdict, spec_verdict, model_run.
-    destruct (seed_ok INIT GROWTH (l_tb r0)) eqn:Es; [|discriminate].
+    destruct (seed_ok INIT GROWTH (l_bb r0) (l_tb r0)) eqn:Es; [|discriminate].
     intros Hm. eapply replay_sound_gen; [|exact Hm].
     unfold pinv. simpl. unfold seed_ok in Es. now apply N.leb_le.
   Qed.
@@ -69,7 +69,9 @@ Example ex_replay :
   run_pacing_log 100 2 100 2 "60 0 100 0 60 100;60 60 100 0 120 100;10 120 100 1 50 0"%string
     = "M:MISMATCH@2#7|S:OK|n=3 col=1 freed=80 max=120"%string /\
   run_pacing_log 100 2 100 2 "60 0 100 0 60 100;60 60 100 0 120 100;60 120 100 0 180 100"%string
-    = "M:MISMATCH@2#3|S:BOUND@2|n=3 col=0 freed=0 max=180"%string.
+    = "M:MISMATCH@2#3|S:BOUND@2|n=3 col=0 freed=0 max=180"%string /\
+  (* a larger initial budget in the code than the property states: the model follows the code, S does not *)
+  run_pacing_log 200 2 100 2 "60 0 200 0 60 200;60;60"%string = "M:OK|S:BOUND@2|n=3 col=0 freed=0 max=180"%string.
 Proof. repeat split; vm_compute; reflexivity. Qed.
 
 Print Assumptions replay_sound.
